@@ -32,8 +32,9 @@ def avoid_zero_division(f: callable) -> callable:
 
         """
 
-        x += c.EPSILON
-        y += c.EPSILON
+        # Shifted copies are used, as the caller's arrays should not be modified
+        x = x + c.EPSILON
+        y = y + c.EPSILON
 
         return f(x, y)
 
